@@ -3,6 +3,7 @@
 import McpModel.Base.Proto
 import McpModel.EventStore.Props
 import McpModel.Conn.Props
+import McpModel.Conn.Deadlock
 import McpModel.Bearer.Props
 import McpModel.KeepAlive.Props
 import McpModel.OAuth.Props
@@ -17,3 +18,5 @@ import McpModel.ClientStream.Props
 import McpModel.ClientStream.AsBuilt
 -- (McpModel.ClientStream.Driver defines its own top-level `main`; it is built by the lean_exe drv_clientstream)
 import McpModel.Sessions.Props
+import McpModel.Wire.Props
+import McpModel.Gate.Props
